@@ -1,11 +1,19 @@
 (* C17 correspondence checker *)
-From VF Require Import C17.Cost C01.Order C01.BTree.
+From VF Require Import C17.Cost C17.BTCost C17.SkipCost C01.Order C01.BTree.
 Local Open Scope Z_scope.
 
 Inductive ckind := KRB | KAVL | KBT (m : nat).
 Inductive shape := SBin (t : BinTree.tree Z Z unit) | SBT (t : BTree.node Z Z) | SBTEmpty.
 Inductive probe := PGet (k : Z) | PFloor (k : Z) | PCeiling (k : Z) | PPutPresent (k : Z) | PRemoveAbsent (k : Z).
 Inductive bop := BGet | BPut | BRemove.
+
+Inductive mprobe := MPut (k : Z) | MRemove (k : Z) | MGet (k : Z) | MFinal (s : shape).
+Inductive skind := SKZ | SKM | SKS.                                   (* zset | skipmap | skipset *)
+Inductive sprobe :=
+| SLookup (k : Z)                 (* zset.Rank | skipmap.Load | skipset.Contains *)
+| SInsert (k : Z) (h : nat)       (* zset.AddB(0,k) | Store | AddB; h = level of the node created, 0 = none *)
+| SDelete (k : Z)                 (* RemoveB | Delete | RemoveB *)
+| SFinal (l : list knode).
 
 Inductive case :=
 | CShape (k : ckind) (s : shape) (probes : list (probe * nat))
@@ -14,7 +22,13 @@ Inductive case :=
    three batches of comparator-call counts *)
 | CSkip (n : Z) (highest : nat) (heights : list nat) (reach : list nat) (batches : list (list nat))
 (* skipmap / skipset: per level-0 node the number of lanes it is linked on, and its level field *)
-| CSkipLanes (n : Z) (highest : nat) (lanes levels : list Z) (batches : list (list nat)).
+| CSkipLanes (n : Z) (highest : nat) (lanes levels : list Z) (batches : list (list nat))
+(* B-tree of order m: dumped shape, then mutating operations, each with its comparator-call count; the model tree is
+   carried along by the C01 model and compared with a second dump at the end (MFinal) *)
+| CBTOps (m : nat) (s : shape) (ops : list (mprobe * nat))
+(* skip lists: highestLevel, level-0 keys, node heights (level fields), lanes each node is actually linked on; then
+   operations, each with (comparator calls, highestLevel afterwards); SFinal carries a second dump *)
+| CSkipOps (k : skind) (highest : nat) (keys : list Z) (heights lanes : list nat) (ops : list (sprobe * nat * nat)).
 
 Definition key_of (p : probe) : Z :=
   match p with PGet k | PFloor k | PCeiling k | PPutPresent k | PRemoveAbsent k => k end.
@@ -44,11 +58,12 @@ Definition bound_get (k : ckind) (n : Z) : Z :=
   | KBT m => zlog2n n * (Z.log2 (Z.of_nat m - 1) + 1)
   end.
 (* Put / Remove: red-black and AVL make no comparison beyond the search path; the B-tree re-searches the parent once
-   per split (Put) and up to four times per rebalanced level (Remove): constant 2 resp. 6 (not proved; see level_note) *)
+   per split (Put: at most 2 searches per level) and twice per rebalanced level (Remove: at most 3 searches per
+   level): the proved bounds C17_bt_put_cost / C17_bt_remove_cost *)
 Definition bound_op (k : ckind) (o : bop) (n : Z) : Z :=
   match k, o with
-  | KBT _, BPut => 2 * (bound_get k n + Z.log2 (match k with KBT m => Z.of_nat m | _ => 2 end) + 1)
-  | KBT _, BRemove => 6 * (bound_get k n + Z.log2 (match k with KBT m => Z.of_nat m | _ => 2 end) + 1)
+  | KBT _, BPut => 2 * bound_get k n
+  | KBT _, BRemove => 3 * bound_get k n
   | _, _ => bound_get k n
   end.
 
@@ -84,6 +99,81 @@ Definition sum_nat (l : list nat) : Z := fold_right (fun x a => Z.of_nat x + a) 
 Definition avg_ok (n : Z) (batch : list nat) : bool :=
   sum_nat batch <=? (4 * Z.log2 (n + 2) + 16) * Z.of_nat (length batch).
 
+(* ---- B-tree, mutating operations on a carried model tree ---- *)
+Fixpoint node_eqb (fuel : nat) (a b : BTree.node Z Z) : bool :=
+  match fuel with
+  | O => false
+  | S f => let '(Node ea ca) := a in let '(Node eb cb) := b in
+           list_eqb (fun x y => (fst x =? fst y) && (snd x =? snd y)) ea eb && list_eqb (node_eqb f) ca cb
+  end.
+Definition bt_root (s : shape) : option (BTree.node Z Z) := match s with SBT t => Some t | _ => None end.
+Definition root_count (r : option (BTree.node Z Z)) : Z :=
+  match r with Some t => Z.of_nat (bt_count 64 t) | None => 0 end.
+Definition bt_step (m : nat) (st : BTree.state Z Z) (x : mprobe * nat) : BTree.state Z Z * nat :=
+  let '(p, c) := x in
+  let r := BTree.root st in
+  let n := root_count r in
+  match p with
+  | MPut k => (BTree.put Z Z zcmp m k k st,
+               kind_of (Nat.eqb c (put_cost Z Z zcmp m r k k)) (Z.of_nat c <=? bound_op (KBT m) BPut n))
+  | MRemove k => (BTree.remove Z Z zcmp m k st,
+                  kind_of (Nat.eqb c (remove_cost Z Z zcmp m r k)) (Z.of_nat c <=? bound_op (KBT m) BRemove n))
+  | MGet k => (st, kind_of (Nat.eqb c (match r with Some t => get_cost Z Z zcmp 64 k t | None => O end))
+                           (Z.of_nat c <=? bound_op (KBT m) BGet n))
+  | MFinal s => (st, kind_of (negb (BTree.stuck st) && option_eqb (node_eqb 64) r (bt_root s)) true)
+  end.
+
+(* ---- skip lists, operations on a carried level-0 sequence ---- *)
+Definition knode_eqb (a b : knode) : bool := (fst a =? fst b) && Nat.eqb (snd a) (snd b).
+Definition sk_mem (k : Z) (l : list knode) : bool := existsb (fun y => fst y =? k) l.
+Fixpoint sk_ins (y : knode) (l : list knode) : list knode :=
+  match l with [] => [y] | z :: r => if fst z <? fst y then z :: sk_ins y r else y :: l end.
+Fixpoint sk_del (k : Z) (l : list knode) : list knode :=
+  match l with [] => [] | z :: r => if fst z =? k then r else z :: sk_del k r end.
+(* zset deleteNode:  for highestLevel > 1 && header.next(highestLevel-1) == nil { highestLevel-- } *)
+Fixpoint ztrim (l : list knode) (h : nat) : nat :=
+  match h with
+  | S (S _ as h1) => if existsb (fun y => Nat.ltb h1 (snd y)) l then h else ztrim l h1
+  | _ => h
+  end.
+Definition agree (b : bool) : nat := kind_of b true.
+Definition sk_step (kd : skind) (st : list knode * nat) (x : sprobe * nat * nat) : (list knode * nat) * nat :=
+  let '(p, c, ha) := x in
+  let '(l, hi) := st in
+  match p with
+  | SFinal f => (st, agree (list_eqb knode_eqb l f && Nat.eqb hi ha))
+  | SLookup k =>
+      match kd with
+      | SKZ => (st, agree (Nat.eqb c (if sk_mem k l then z_rank_cost hi l k else O) && Nat.eqb ha hi))   (* dict miss: no search *)
+      | _ => (st, agree (Nat.eqb c (m_find_cost hi l k) && Nat.eqb ha hi))
+      end
+  | SInsert k h =>
+      match kd with
+      | SKZ =>
+          if sk_mem k l then (st, agree (Nat.eqb c O && Nat.eqb h O && Nat.eqb ha hi))                   (* same score: nothing *)
+          else let hi' := if Nat.ltb hi h then h else hi in
+               ((sk_ins (k, h) l, hi'), agree (Nat.eqb c (z_insert_cost hi l k) && Nat.leb 1 h && Nat.eqb ha hi'))
+      | _ =>
+          (* Store / AddB draw the level and raise highestLevel BEFORE searching; when the key is present the level
+             drawn is visible only through highestLevel afterwards *)
+          if sk_mem k l then ((l, ha), agree (Nat.leb hi ha && Nat.eqb h O && Nat.eqb c (m_find_cost ha l k)))
+          else ((sk_ins (k, h) l, ha),
+                agree (Nat.leb 1 h && Nat.eqb ha (Nat.max hi h) && Nat.eqb c (m_find_cost ha l k)))
+      end
+  | SDelete k =>
+      match kd with
+      | SKZ =>
+          if sk_mem k l then let l' := sk_del k l in let hi' := ztrim l' hi in
+                             ((l', hi'), agree (Nat.eqb c (z_insert_cost hi l k) && Nat.eqb ha hi'))
+          else (st, agree (Nat.eqb c O && Nat.eqb ha hi))
+      | _ => ((sk_del k l, hi), agree (Nat.eqb c (m_del_cost hi l k) && Nat.eqb ha hi))
+      end
+  end.
+(* structure of the dump: every node is linked on exactly the lanes 0..level-1 and 1 <= level <= highestLevel *)
+Definition sk_struct_b (highest : nat) (keys : list Z) (heights lanes : list nat) : bool :=
+  list_eqb Nat.eqb lanes heights && Nat.eqb (length keys) (length heights)
+  && forallb (fun h => Nat.leb 1 h && Nat.leb h highest) heights.
+
 Definition check_case (c : case) : nat :=
   match c with
   | CShape k s probes => scan (fun (_ : unit) x => (tt, probe_kind k s x)) tt probes 0
@@ -94,6 +184,10 @@ Definition check_case (c : case) : nat :=
   | CSkipLanes n hi lanes levels batches =>
       if negb (skip_lanes_b hi lanes levels) then 1%nat
       else scan (fun (_ : unit) b => (tt, kind_of true (avg_ok n b))) tt batches 1
+  | CBTOps m s ops => scan (bt_step m) (BTree.mkState (bt_root s) 0 false) ops 0
+  | CSkipOps kd hi keys hs lanes ops =>
+      if negb (sk_struct_b hi keys hs lanes) then 1%nat
+      else scan (sk_step kd) (combine keys hs, hi) ops 1
   end.
 
 Definition mismatches (cs : list case) : list (nat * nat) := find_bad check_case cs.
